@@ -133,6 +133,19 @@ def gen_cases(ctx):
 NOTRUN = "NOTRUN"
 
 
+def c_env():
+    env = dict(os.environ)
+    # symbolize=0: the fault label is all we need, and symbolizing a report can take seconds under load
+    env["ASAN_OPTIONS"] = "detect_leaks=1:abort_on_error=0:exitcode=99:allocator_may_return_null=1:symbolize=0"
+    env["UBSAN_OPTIONS"] = "print_stacktrace=0:halt_on_error=1:symbolize=0"
+    return env
+
+
+def run_forked(variant, lines, shards=None):
+    """`c` lines (forked child per case) sharded, with the environment above"""
+    return vlib._run_sharded([os.path.join(vlib.BUILD, variant, "jlsrun"), "bits"], lines, shards or vlib.NPROC, 1800, c_env())
+
+
 def run_inproc(variant, cases, shards=None, max_faults=6):
     """run `n` lines (no forked child) sharded; when a process dies or hangs on a line, that line alone is
     re-run as a forked `c` line to get its FAULT label and the shard continues after it; after max_faults
@@ -140,9 +153,7 @@ def run_inproc(variant, cases, shards=None, max_faults=6):
     is already reported; this bounds the time)."""
     import subprocess, threading
     shards = shards or vlib.NPROC
-    env = dict(os.environ)
-    env["ASAN_OPTIONS"] = "detect_leaks=1:abort_on_error=0:exitcode=99:allocator_may_return_null=1"
-    env["UBSAN_OPTIONS"] = "print_stacktrace=1:halt_on_error=1"
+    env = c_env()
     exe = [os.path.join(vlib.BUILD, variant, "jlsrun"), "bits"]
     out = [NOTRUN] * len(cases)
     size = max(1, (len(cases) + shards - 1) // shards)
@@ -201,7 +212,7 @@ def run_bits(ctx, build=True):
     asan = [None] * len(cases)
     for i, r in zip(inb_idx, run_inproc("asan", [cases[i] for i in inb_idx])):
         asan[i] = r
-    for i, r in zip(oob_idx, vlib.run_c("asan", "bits", [lines[i] for i in oob_idx])):
+    for i, r in zip(oob_idx, run_forked("asan", [lines[i] for i in oob_idx])):
         asan[i] = r
     plain_sub = run_inproc("plain", [cases[i] for i in inb_idx])
     plain = {i: r for i, r in zip(inb_idx, plain_sub)}
@@ -216,7 +227,7 @@ def run_bits(ctx, build=True):
         if stats["viol"][kind] <= 3:
             ctx.violation("bits_%s_%d.txt" % (kind, stats["viol"][kind]),
                           "%s\ncase (%s): dst_bit=%d src_bit=%d bit_count=%d dst=%d bytes src=%d bytes\nline=%s\n%s\n"
-                          "replay: echo '%s' | ASAN_OPTIONS=exitcode=99 %s/asan/jlsrun bits ; echo '%s' | %s/jlsmodel bits\n"
+                          "replay: echo '%s' | ASAN_OPTIONS=exitcode=99:symbolize=0 %s/asan/jlsrun bits ; echo '%s' | %s/jlsmodel bits\n"
                           % (kind, c.tag, c.db, c.sb, c.cnt, len(c.dst), len(c.src), line, detail, line, B, line, B),
                           "jls_bit_copy %s: dst_bit=%d src_bit=%d count=%d (%s)" % (kind, c.db, c.sb, c.cnt, c.tag))
 
